@@ -66,9 +66,45 @@ fn("hypercorn.trio.task_group:_handle",
 # task per call; C17: the WSGI application is reached only through sync_spawn, i.e. off the loop)
 SPAWN_PARAMS = {"app": "opaque", "config": "obj hypercorn.config:Config", "scope": "opaque", "send": "opaque"}
 cls("hypercorn.asyncio.task_group:TaskGroup", fields={"_loop": "opaque", "_task_group": "obj asyncio:TaskGroup"})
-cls("hypercorn.trio.task_group:TaskGroup", fields={"_nursery": "opt obj trio:Nursery", "_nursery_manager": "opaque"})
+cls("hypercorn.trio.task_group:TaskGroup", fields={"_nursery": "opt obj trio:Nursery", "_nursery_manager": "opaque"},
+    # assumed (structural): a task group is only used by tasks that run inside its `async with`
+    # block, and __aexit__ waits for all of them, so an entered group stays entered for its users
+    rely=[("TaskGroup.rely.entered-stays", "implies(old(self._nursery) is not None, self._nursery is not None)", "C07,C16")])
 for TG in ("hypercorn.asyncio.task_group:TaskGroup", "hypercorn.trio.task_group:TaskGroup"):
     fn(TG + ".spawn_app", params=SPAWN_PARAMS, effect="atomic", returns=None,
        requires=[("spawn_app.pre.entered", "True" if "asyncio" in TG else "self._nursery is not None")],
        ensures=[("C16.spawn_app.one-task", "n_emitted('spawned') == 1", "C16,C01")],
        props=("C16", "C01"))
+
+
+# ------------------------------------------------------------------------------------------------
+# SingleTask (C07 timer ownership, C16 same interface on both workers).  g_live counts the tasks
+# started through the object and not cancelled since (maintained by the runtime model at
+# create_task / nursery.start / cancel); both implementations keep it at most one and equal to
+# "the handle is set and not cancelled".  All writes happen under self._lock (lock-discipline
+# obligation), so the protected fields are stable across the suspensions inside restart/stop.
+ACTION = "callable{record:action_calls;coro:1}"
+for ST, HANDLE, TG in (
+    ("hypercorn.asyncio.worker_context:AsyncioSingleTask", "asyncio:Task", "hypercorn.asyncio.task_group:TaskGroup"),
+    ("hypercorn.trio.worker_context:TrioSingleTask", "trio:CancelScope", "hypercorn.trio.task_group:TaskGroup"),
+):
+    cls(ST, fields={"_handle": "opt obj " + HANDLE, "_lock": "obj " + HANDLE.split(":")[0] + ":Lock"}, ghost={"g_live": "int"},
+        lock_protected={"_lock": ["_handle", "g_live"]},
+        monitor_inv={"_lock": [("SingleTask.at-most-one", "self.g_live == (1 if (self._handle is not None and not self._handle.cancelled) else 0)", "C07,C16")]})
+    fn(ST + ".__init__", params={}, ensures=[("SingleTask.init", "self._handle is None and self.g_live == 0", "C07,C16")], props=("C07", "C16"))
+    fn(ST + ".restart", params={"task_group": "obj " + TG, "action": ACTION},
+       requires=[("restart.pre.entered", "True" if "asyncio" in ST else "task_group._nursery is not None")] ,
+       ensures=[
+           # exactly one timer afterwards: the previous one (if any) cancelled, one new task that runs `action`
+           ("C07.single.restart.one-live", "self.g_live == 1", "C07,C16"),
+           ("C07.single.restart.spawned", "n_emitted('spawned') == 1 and runs_action(emitted('spawned')[0], action)", "C07,C16"),
+           ("C07.single.restart.cancels-at-most-one", "n_emitted('cancelled') <= 1", "C07,C16"),
+       ],
+       props=("C07", "C16"))
+    fn(ST + ".stop", params={},
+       ensures=[
+           ("C07.single.stop.none-live", "self.g_live == 0 and self._handle is None", "C07,C16"),
+           ("C07.single.stop.cancels-at-most-one", "n_emitted('cancelled') <= 1", "C07,C16"),
+           ("C07.single.stop.spawns-nothing", "n_emitted('spawned') == 0", "C07,C16"),
+       ],
+       props=("C07", "C16"))
